@@ -45,6 +45,26 @@ pub async fn cmd_bloom(ctx: &mut Ctx, args: &[&str]) {
             ctx.blooms.insert(id.to_string(), b);
             ctx.emit(format!("bits {}", bits));
         }
+        ["newbits", id, cfghex, _hashers, bits] => {
+            // a filter restored from a saved form whose bit count is NOT what the current formula gives for its
+            // config (files written by versions that sized the buffer differently): built through `from_raw`
+            let cfgb = hex_decode(cfghex);
+            let bits: u64 = bits.parse().unwrap();
+            let words = (bits + 63) / 64;
+            let mut raw = cfgb.clone();
+            raw.extend_from_slice(&words.to_le_bytes());
+            raw.extend(std::iter::repeat(0u8).take(8 * words as usize));
+            raw.extend_from_slice(&bits.to_le_bytes());
+            match Bloom::from_raw(&raw) {
+                Ok(b) => {
+                    let raw = b.to_raw().expect("to_raw");
+                    let got = u64::from_le_bytes(raw[raw.len() - 8..].try_into().unwrap());
+                    ctx.blooms.insert(id.to_string(), b);
+                    ctx.emit(format!("bits {}", got));
+                }
+                Err(_) => { ctx.blooms.insert(id.to_string(), Bloom::new(config_from_bytes(&cfgb))); ctx.emit("bits Err"); }
+            }
+        }
         ["add", id, key] => {
             let r = ctx.blooms.get(*id).expect("bloom").add(hex_decode(key));
             ctx.emit(format!("add {}", if r.is_ok() { "ok" } else { "err" }));
